@@ -10,8 +10,8 @@ import ast
 
 from ..engine import rule
 from ..model import Undecided
-from ..cfg import dotted, call_name, is_call, simple_name, unparse, const_value, contains, enclosing
-from ..flow import Defs, depends
+from ..cfg import implied, dotted, call_name, is_call, simple_name, unparse, const_value, contains, enclosing
+from ..flow import Canon, Defs, depends
 from ..decide import table, ret_kind
 from ..util import keyword, returns_of, calls_in, inside, order_key
 
@@ -238,3 +238,34 @@ def c13f(ctx):
     ctx.check(ok, 'FileCache.load_tile_metadata:lstat', 'tile timestamp and size are taken with lstat (the link itself, not the shared single-colour file)', fm,
               fail='tile metadata is read through the symlink: a single-colour tile refreshed after the threshold keeps the old timestamp of the '
                    'shared file and is fetched again on every request')
+
+
+@rule('C13.g', floor=1)
+def c13g(ctx):
+    """"refreshed" means "written after the threshold": a store records the time of the store.  The sqlite backend binds
+    time.time() to last_modified (not the timestamp the tile object carried from an earlier load, which would keep a refreshed
+    tile expired for ever); the file backends get their time from the file system (mtime of the rename)"""
+    import itertools
+    fn = ctx.fn('mapproxy/cache/mbtiles.py:MBTilesCache._store_bulk')
+    g = fn.cfg
+    flags = sorted({at.text for s, d, test, pol in g.branch_edges() for at, p in implied(test, pol) if at.op is None and at.text == 'self.supports_timestamp'})
+    apps = [(g.node_for(x), x) for x in fn.walk() if isinstance(x, ast.Call) and isinstance(x.func, ast.Attribute) and x.func.attr == 'append' and x.args]
+    seen = 0
+    ok = True
+    for vals in itertools.product([True], repeat=len(flags)):
+        cf = Canon(fn, assume=dict(zip(flags, vals)))
+        for n, x in apps:
+            if n in cf.infeasible:
+                continue
+            t = cf.expr(x.args[0])
+            if isinstance(t, ast.Tuple) and len(t.elts) == 5:
+                seen += 1
+                ok = ok and is_call(t.elts[4], 'time.time')
+    ctx.check(ok and seen > 0, 'MBTilesCache._store_bulk:stores-now', 'the last_modified value of a stored record is time.time() at the store', fn,
+              fail='the modification time written with a tile is not the time of the store (e.g. the timestamp the tile object carried from a '
+                   'previous load): a refreshed tile keeps its old time and stays expired')
+    tb = ctx.fn('mapproxy/cache/base.py:tile_buffer')
+    g2 = tb.cfg
+    sets = g2.find_stmts(lambda s: isinstance(s, ast.Assign) and unparse(s.targets[0]) == 'tile.timestamp')
+    ok = bool(sets) and all(is_call(g2.stmt[n].value, 'time.time') for n in sets)
+    ctx.check(ok, 'tile_buffer:timestamp-is-now', 'a tile without timestamp gets the current time when it is stored', tb)
